@@ -59,3 +59,24 @@ Theorem C04_query_value_cannot_split_a_pair : forall v, UrlEscape.wf_bytes v ->
   forallb query_safe (UrlEscape.query_escape v) = true.
 Proof. exact query_escape_safe. Qed.
 Print Assumptions C04_query_value_cannot_split_a_pair.
+
+(* REPEATED QUERY AND FORM VALUES. The client's encoding of a value map (C11's model of url.Values.Encode: names sorted,
+   every pair escaped) is decoded by the server's parser (C10's model of url.ParseQuery) into exactly the same map: every
+   name gets back its values, all of them, in the order they were set; a name without values vanishes. For every map with
+   pairwise distinct names, any bytes in names and values (ampersand, equals sign, semicolon, plus, percent, space, non-ASCII). *)
+From V Require Import FormRoundTrip.
+From V Require ClientURL ClientBody.
+Theorem C04_form_values_roundtrip : forall fs k, Forall wf_field fs -> NoDup (map fst fs) ->
+  ClientURL.q_get k (ClientURL.parse_query (ClientBody.form_encode fs)) =
+  match find (fun f => bytes_eqb k (fst f)) fs with
+  | Some f => match snd f with [] => None | vs => Some vs end
+  | None => None
+  end.
+Proof. exact form_roundtrip. Qed.
+Print Assumptions C04_form_values_roundtrip.
+
+(* the two models of url.QueryEscape used by C11 and C10 are one function on bytes *)
+Theorem C04_query_escape_models_agree : forall s, UrlEscape.wf_bytes s ->
+  ClientBody.cb_query_escape s = UrlEscape.query_escape s.
+Proof. exact query_escape_agree. Qed.
+Print Assumptions C04_query_escape_models_agree.
